@@ -149,7 +149,10 @@ class Gen:
             f"for ({it} = y; {it} < {g}; {it}++)", f"for ({it} = 0; g() > {it}; {it}++)", f"for ({it} = 0; {it} < arr[{g}]; {it}++)",
             f"for (int k2 = 0, k3 = 1; k2 < {g}; k2++)", f"for ({it} = 0; {it} < {g}; {it}++, y++)",
             f"for ({it}++; {it} < {g}; {it}++)", f"for (g(); {it} < {g}; {it}++)", f"for ({it}; {it} < {g}; {it}++)",
-            f"for ({it} += 1; {it} < {g}; {it}++)", f"for ({it} = 0; ; {it}++)"])
+            f"for ({it} += 1; {it} < {g}; {it}++)", f"for ({it} = 0; ; {it}++)",
+            f"for ({it} = 0, j = y; {it} < {g}; {it}++)", f"for ({it} = 0, j = {g}; {it} < {g}; {it}++)",
+            f"for (int k2 = 0, k3 = y; k2 < {g}; k2++)", f"for ({it} = 0, j = 1, y = z; {it} < {g}; {it}++)",
+            f"for ({it} = {g}, j = 0; {it} < {g}; {it}++)", f"for (int k2 = {g}, k3 = {g}; k2 < {g}; k2++)"])
 
     def stmt(self, depth=0):
         r = self.r
